@@ -10,6 +10,9 @@ if [ "$ROUND" = "1" ]; then
 elif [ "$ROUND" = "3" ]; then
   ROOT=/tmp/seed3
   SPECS="C01-control-length-u16-add-overflow:C01 C02-reveal-chunk-granular-bound:C02 C03-resultcode-msg-fffd-rejected:C03 C04-data-length-patched-at-absolute-2:C04 C05-data-header-length-u16-wrap:C05 C06-length-member-12-drops-avps:C06 C07-writer-default-method-native-endian:C07 C08-control-guard-len-as-u16:C08 C09-backpatch-skipped-when-length-equals-end:C09 C10-encoder-refuses-exactly-65535:C10 C11-scratch-buffer-241-250-secret-panics:C11 C12-scratch-buffer-241-250-secret-truncates:C12 C13-resultcode-all-nul-message-panics:C13 C14-try-read-skips-optional-vendor-avps:C14 C15-greedy-stops-after-256-records:C15 C18-bytes-position-plus-length-overflow:C18 C19-secret-prefix-memo-keyed-by-address:C19 C20-q931-dangling-lead-octet-accepted:C20"
+elif [ "$ROUND" = "7" ]; then
+  ROOT=/tmp/seed7
+  SPECS="C01-optional-bbf-vendor-avp-skipped-in-header-reader:C01 C02-first-avp-fast-path-bound-from-list-length:C02 C03-link-probe-ids-return-bare-header:C03 C04-header-length-u16-sum-overflow-without-length:C04 C05-access-line-rate-vendor-avp-silently-skipped:C05 C06-repeated-random-vector-omitted:C06 C07-private-group-id-get-length-capacity:C07 C08-tolerated-microsoft-vendor-avp-not-skipped:C08 C09-next-avp-start-left-by-zlb:C09 C10-vendor-name-null-placeholder-emptied:C10 C11-xor-chunk-skips-zero-key-words:C11 C12-hide-reversibility-assert-on-empty-optional-text:C12 C13-hex-secret-notation-odd-digits:C13 C14-priority-quirk-table-speedstream:C14 C15-hello-fast-path-reversed-constant:C15 C18-subreader-bytes-checked-against-parent-slice:C18 C19-spill-buffer-lock-per-digest:C19 C20-reveal-remaps-incomplete-avp:C20"
 elif [ "$ROUND" = "6" ]; then
   ROOT=/tmp/seed6
   SPECS="C01-avp-outcome-position-u16:C01 C02-greedy-consumed-count-u32:C02 C03-last-avp-block-memo-fnv32:C03 C04-lcp-echo-request-forced-priority:C04 C05-last-payload-memo-fnv32:C05 C06-retransmission-block-keyed-by-vec-address:C06 C07-avp-scratch-not-cleared-after-idle-shrink:C07 C08-retransmission-memo-fnv32-same-ids:C08 C09-open-frame-ring-of-four:C09 C10-recent-payloads-table-fnv32:C10 C11-zero-ciphertext-chunk-taken-for-first:C11 C12-reveal-used-chunks-clamped-to-u16:C12 C13-counters-mutex-poisoned-by-writer-panic:C13 C14-hot-header-credit-counter-carry:C14 C15-trailing-text-fffd-via-lossy:C15 C18-empty-overwrite-beyond-end-accepted:C18 C19-last-revealed-memo-stores-cleartext:C19 C20-unassigned-name-memo-out-of-step:C20"
